@@ -3392,7 +3392,7 @@ coap_handle_response_send_block(coap_session_t *session, coap_pdu_t *sent,
         }
       }
       track_echo(session, rcvd);
-      if (lg_xmit->last_block == (int)block.num &&
+      if (lg_xmit->last_block >= (int)block.num &&
           lg_xmit->option != COAP_OPTION_Q_BLOCK1) {
         /*
          * Duplicate Block1 ACK
